@@ -161,7 +161,7 @@ func csvRoundTrip[T any](dir string, rows []*T, header bool) (got []*T, problem 
 }
 
 func rtUnit[T any](c *core.Ctx, shape string, rows []*T, knownKey func(r *T) string) {
-	dir, _ := os.MkdirTemp(tmpBase(), "verif-c11-")
+	dir := mustTempDir("c11")
 	defer os.RemoveAll(dir)
 	for _, header := range []bool{true, false} {
 		// every row alone, then all rows in one file
@@ -320,7 +320,7 @@ func (o fileOp) String() string { return fmt.Sprintf("%s(rows#%d)", o.Kind, o.Ro
 func fileHistUnit(c *core.Ctx, depth int) {
 	mk := func(i int) *asset.Snapshot { return snap(i, i%3) }
 	lists := [][]*asset.Snapshot{{}, {mk(0)}, {mk(1), mk(2), mk(3)}, {mk(4)}}
-	dir, _ := os.MkdirTemp(tmpBase(), "verif-c11h-")
+	dir := mustTempDir("c11h")
 	defer os.RemoveAll(dir)
 	file := filepath.Join(dir, "h.csv")
 	// replay returns the file bytes ("<missing>" if absent) and a violation
